@@ -7,8 +7,8 @@ use super::*;
 
 const D: u8 = 12;
 
-fn chain_tree(left: bool) -> T {
-    let mut t = new_tree();
+fn chain_tree(left: bool) -> SplayTree<u8, u8, impl Fn(&u8, &u8) -> Ordering> {
+    let mut t = new_tree_generic();
     // straight-line construction (the builder loops are bounded by the same unwind limit)
     let mut cur: Option<Box<Node<u8, u8>>> = None;
     macro_rules! push {
@@ -59,7 +59,7 @@ depth_teardown!(depth_into_iter_unused, depth_into_iter_unused_full, true, |t| {
 #[kani::unwind(8)]
 fn depth_set_drop() {
     // through the public SplaySet API only (as `subdivide` uses it): monotone insertion builds the chain
-    let mut s = SplaySet::new(cmp_u8 as fn(&u8, &u8) -> Ordering);
+    let mut s = SplaySet::new(|a: &u8, b: &u8| a.cmp(b));
     s.insert(0); s.insert(1); s.insert(2); s.insert(3); s.insert(4); s.insert(5);
     s.insert(6); s.insert(7); s.insert(8); s.insert(9); s.insert(10); s.insert(11);
     drop(s);
